@@ -23,12 +23,15 @@ use std::sync::{Arc, Barrier};
 const OPS: [&str; 5] = ["enforce", "prepare", "compare", "allowsId", "allowsFf"];
 const FORMS: [&str; 3] = ["static", "inst", "long"];
 
-const FIXED: [&str; 34] = [
+const FIXED: [&str; 44] = [
     "\u{5d0}\u{5d1}\u{5d2}\u{5d3}", "\u{5d0}\u{5d1}1", "\u{627}\u{628}\u{62a}", "\u{627}\u{628}\u{661}\u{662}", "\u{627}\u{64e}\u{628}",
     "abc123", "a-b.c", "user_01", "x1y2z3", "2024-10-04", "a+b=c", "\u{3b1}\u{3b2}\u{3b3}", "\u{391}\u{3a3}",
     "\u{ff71}\u{ff72}\u{ff73}", "\u{ff66}\u{ff9f}", "\u{ffe0}\u{ffe1}", "\u{ffe8}\u{ffee}", "\u{ffa1}\u{ffc2}", "\u{ff21}\u{ff22}\u{ff11}", "\u{ff5f}\u{ff60}", "\u{3000}a",
     "\u{430}\u{431}\u{432}", "\u{65e5}\u{672c}\u{8a9e}", "\u{30ab}\u{30fb}\u{30bf}", "\u{e9}t\u{e9}", "e\u{301}", "Foo Bar", " a  b ", "correct horse battery",
     "\u{2163}", "\u{b5}m", "\u{130}x", "\u{13a0}\u{13a1}", "",
+    // labels whose context rules hold (tables and caches behind the rules are reached only by accepted labels)
+    "\u{645}\u{6cc}\u{200c}\u{62e}\u{648}\u{627}\u{647}\u{645}", "\u{628}\u{64e}\u{200c}\u{650}\u{62a}", "\u{915}\u{94d}\u{200d}\u{937}", "l\u{b7}l", "\u{3b1}\u{375}\u{3b2}",
+    "\u{5d0}\u{5f3}", "\u{5d0}\u{5f4}\u{5d1}", "\u{661}\u{662}\u{627}", "\u{6f1}\u{6f2}\u{627}", "\u{30ab}\u{30fb}\u{65e5}",
 ];
 
 fn build_inputs(o: &Oracle, seed: u64) -> Vec<String> {
@@ -138,6 +141,20 @@ fn child(args: &[String]) {
             let mut bad: Vec<Value> = Vec::new();
             let mut calls = 0u64;
             barrier.wait();
+            // the very first call of EVERY thread is made on the same input (it moves with the process index), through
+            // different profiles and forms: whatever that input initializes lazily is initialized under a race of all threads
+            {
+                let i = index % n;
+                let p = PROFILES[t % 4];
+                let op = OPS[(t / 4) % 2];
+                let form = FORMS[t % 3];
+                let got = call(p, op, form, ARG_KINDS[t % ARG_KINDS.len()].1, &inputs, i);
+                calls += 1;
+                if Some(&got) != reference.get(&key(p, op, i)) {
+                    bad.push(json!({"thread": t, "process": index, "first_call_of_every_thread": true, "profile": p, "op": op, "form": form,
+                                    "input": string_to_cps(&inputs[i]), "sequential": reference.get(&key(p, op, i)), "concurrent": got}));
+                }
+            }
             for pass in 0..passes {
                 let mut i = start;
                 for step in 0..n {
